@@ -54,8 +54,11 @@ def one_run(sys_seed, np_seed, niter, opts, kind, tmp):
     np.random.seed(np_seed)
     try:
         with contextlib.redirect_stdout(sink), contextlib.redirect_stderr(sink):
-            system.fit(max_iter=niter, num_refine=12, max_tol=opts.get('max_tol', -1.0), test_set=test_set, save_interval=opts['save_interval'],
-                       plot_interval=opts['plot_interval'], start_test_check=1)      # the test set is evaluated from the first iteration on
+            # 'two_stage': the same number of iterations in two consecutive fit() calls (the second starts from a history that carries test errors)
+            stages = [niter] if not opts.get('two_stage') else [niter // 2, niter - niter // 2]
+            for it_ in stages:
+                system.fit(max_iter=it_, num_refine=12, max_tol=opts.get('max_tol', -1.0), test_set=test_set, save_interval=opts['save_interval'],
+                           plot_interval=opts['plot_interval'], start_test_check=1)      # the test set is evaluated from the first iteration on
     finally:
         logging.disable(logging.CRITICAL)
     fp = rng_fingerprint()
@@ -107,6 +110,8 @@ def run(ctx: Ctx):
                     todo = todo + [{'test_set': 'huge', 'save_interval': 0, 'plot_interval': 0, 'root_dir': False, 'log': 'none'}]
             # a test set that holds reference values for only some of the outputs, with and without a root directory (plots)
             todo = todo + [{'test_set': 'partial', 'save_interval': 0, 'plot_interval': 1, 'root_dir': True, 'log': 'none'},
+                           {'test_set': 'partial', 'save_interval': 0, 'plot_interval': 1, 'root_dir': True, 'log': 'none', 'two_stage': True},
+                           {'test_set': True, 'save_interval': 2, 'plot_interval': 1, 'root_dir': True, 'log': 'none', 'two_stage': True},
                            {'test_set': 'partial', 'save_interval': 0, 'plot_interval': 0, 'root_dir': False, 'log': 'none'}]
             for opts in todo:
                 case = {'system_seed': sys_seed, 'kind': kind, 'numpy_seed': np_seed, 'iterations': niter, 'options': opts}
